@@ -19,29 +19,29 @@ type Fail struct {
 
 // Outcome is everything one history produced.
 type Outcome struct {
-	H      *History
-	T      *Table
-	Obs    []*StepObs
-	Fails  []Fail
-	Stats  map[string]int
-	Err    error // harness-level error (could not observe)
+	H       *History
+	T       *Table
+	Obs     []*StepObs
+	Fails   []Fail
+	Stats   map[string]int
+	Err     error // harness-level error (could not observe)
 	Commits bool
 }
 
 // Options of a run.
 type Options struct {
-	Prop       string
-	Commits    bool // observe and check every commit after every step (C13)
-	Determinism int // number of repeated scans per step for the tie-order check (0 = off)
-	Reopen     bool // also scan through a reopened (cold) handle
-	StopOnFail bool
+	Prop        string
+	Commits     bool // observe and check every commit after every step (C13)
+	Determinism int  // number of repeated scans per step for the tie-order check (0 = off)
+	Reopen      bool // also scan through a reopened (cold) handle
+	StopOnFail  bool
 }
 
 type refState struct {
-	expected map[int][]int // branch -> expected multiset of tokens (sorted)
-	objsAt   map[int][]int // commit -> observed object ids (sorted); absent if unreadable at creation
-	scanAt   map[int][]int // commit -> canonical scan at creation
-	statAt   map[int]string
+	expected   map[int][]int // branch -> expected multiset of tokens (sorted)
+	objsAt     map[int][]int // commit -> observed object ids (sorted); absent if unreadable at creation
+	scanAt     map[int][]int // commit -> canonical scan at creation
+	statAt     map[int]string
 	lastRevert int
 	revertedAt map[int]int // revert commit -> tip commit before the revert
 }
@@ -225,7 +225,7 @@ func RunHistory(h *History, prof *Profile, rng *rand.Rand, opt Options) *Outcome
 // Benign failure classes leave the lake usable; a history continues after them.
 func Benign(key string) bool {
 	return strings.HasPrefix(key, "C14:this-key:") || strings.HasPrefix(key, "C14:scan:tie-order:") ||
-		key == "C15:branch:empty-branch-reads-main"
+		key == "C15:branch:empty-branch-reads-main" || key == "C15:merge:delete-of-merged-object"
 }
 
 func trimOther(s string) string {
@@ -297,6 +297,28 @@ func checkStep(r *Real, t *Table, ref *refState, op Op, obs, prev *StepObs, tips
 			if ok1 && ok2 && ok3 {
 				added, deleted := SetSub(co, ao), SetSub(ao, co)
 				expObjs, expObjsSet = SetSub(SetUnion(po, added), deleted), true
+				// "minus everything the child deleted since then", read literally, also covers
+				// objects the child added after the ancestor and deleted again; if the parent
+				// took such an object over in an earlier merge, the code leaves it there.
+				var everSeen []int
+				for _, c := range PathOf(r.Parent[:ncBefore], ct) {
+					if c == anc {
+						break
+					}
+					everSeen = SetUnion(everSeen, ref.objsAt[c])
+				}
+				expLiteral := SetSub(SetUnion(po, added), SetUnion(deleted, SetSub(everSeen, co)))
+				if !EqInts(expLiteral, expObjs) {
+					if pb := findBranch(obs, b); pb != nil && pb.Status == "ok" {
+						if live := liveOf(pb); EqInts(live, expObjs) {
+							if P == "C15" { // (C15's business; other plans just follow the code)
+								fail("oracle", "C15:merge:delete-of-merged-object", fmt.Sprintf("merge b%d->b%d: the child deleted object(s) %v that it had added after the common ancestor c%d and that the parent took over in an earlier merge; the parent still holds them after the merge (has %v, property expects %v)", op.Child, b, SetSub(expObjs, expLiteral), anc, live, expLiteral), step)
+							}
+						} else if EqInts(live, expLiteral) {
+							expObjs = expLiteral
+						}
+					}
+				}
 				ref.expected[b] = contentOf(r, expObjs)
 				if cd := SetSub(deleted, po); len(cd) > 0 {
 					// both sides deleted the same object(s)
